@@ -360,4 +360,10 @@ result of the composed `try_as_optimum` under forward propagation IS a fixed poi
 example (S o : Compose.Setup ℝ) (h : Compose.asOptimum S = .ok o) (hfw : S.counterProp = false) :
     Compose.asOptimum o = .ok o := compose_optimum_idem S o h hfw
 
+/-- non-vacuity of `hjs` and `hfix` together: an optimum primitive setup (fixed point of the composed
+`try_as_optimum`, obtained from the concrete unpoled KTP setup `Compose.exGrid`) with a spectrum object
+exists over ℝ; only `jsaCenter ≠ 0` (a numerical fact about Sellmeier values) is left as a hypothesis -/
+example : ∃ (o : Compose.Setup ℝ) (js : Compose.JS ℝ),
+    Compose.asOptimum o = .ok o ∧ Compose.jointSpectrum o 50 = .ok js := Compose.exGrid_optimum_available
+
 end Spdc.Props.C20
